@@ -43,6 +43,8 @@ type catchEvent struct {
 	once            sync.Once
 	running         atomic.Bool
 	stopped         chan struct{} // closed when the event loop has ended
+	armed           chan struct{} // closed when the node listens for the first time
+	armedOnce       sync.Once
 	satisfier       *logic.CatchEventSatisfier
 }
 
@@ -54,6 +56,7 @@ func newCatchEvent(wr *wiring, element *schema.CatchEvent) (evt *catchEvent, err
 		activated:       atomic.Bool{},
 		awaitingActions: make([]chan IAction, 0),
 		stopped:         make(chan struct{}),
+		armed:           make(chan struct{}),
 		satisfier:       logic.NewCatchEventSatisfier(element, wr.eventDefinitionInstanceBuilder),
 	}
 
@@ -89,6 +92,7 @@ func (evt *catchEvent) run(ctx context.Context, sender tracing.ISenderHandle) {
 				if !evt.activated.Load() {
 					evt.activated.Store(true)
 					evt.tracer.Send(ActiveListeningTrace{Node: evt.element})
+					evt.armedOnce.Do(func() { close(evt.armed) })
 				}
 				evt.awaitingActions = append(evt.awaitingActions, m.response)
 			}
